@@ -25,6 +25,10 @@ Coord == 0..MaxC
 VarForms == {"float64", "int64"}
 \* Two public methods grid a trajectory (grid_trajectory and the older cells_touched_by_trajectory_with_state_and_
 \* integrated_variables it was refactored from): same pieces - cells, order, amounts - from both
+\* NearParallel: a segment along a latitude grid line that is tilted by less than any grid scale (a millimetre) still crosses
+\* that line where the two meet - at its middle, if it starts as far below the line as it ends above: its pieces before the
+\* middle lie in the row of the start point, those after it in the row of the end point (the harness derives these cases from
+\* the pieces of the exactly parallel segment)
 EntryPoints == {"grid_trajectory", "cells_touched_by_trajectory_with_state_and_integrated_variables"}
 \* cell index of a rational coordinate x: the k with kQ < x <= (k+1)Q
 CellOf(x) == LET n == x[1]  d == x[2] * Q          \* x / Q = n / d
